@@ -14,7 +14,8 @@ ID = "C11"
 GEN_DEPENDS = []
 RULE = ("random histories (<= 25 container ops after a set-up prefix) over 2-4 namespaces (case-sensitive and -insensitive) with "
         "overlapping, disjoint, duplicate and case-variant labels; ops: TreeList append/insert/[]=/slice=/extend/+=/+/read/new_tree/"
-        "pop/del/remove/[a:b]/clone, Tree/TreeList/CharacterMatrix migrate/reconstruct/clone (both unify flags), matrix []=/new_sequence, "
+        "pop/del/remove/[a:b]/clone (incl. positions out of range and trees not in the list: the refusal is compared), Tree/TreeList/"
+        "CharacterMatrix migrate/reconstruct/clone (both unify flags), matrix []=/new_sequence, TreeArray.add_tree of a foreign tree, "
         "DataSet add/new_*/attach/detach/unify/read, both import strategies; thorough adds every depth<=3 history over a fixed small world; "
         "non-trivial = at least two namespaces are involved in a migrating/cloning/reading step")
 MODELLED_NOT_VERIFIED = [
@@ -27,14 +28,18 @@ MODELLED_NOT_VERIFIED = [
     "collection bound to a different namespace is outside the statement (documented: originals are migrated); histories never do it and the "
     "theorems carry it as the decidable hypothesis `Valid`",
 ]
-EXPLANATION = ("Theorems (Props/C11.lean, about the definitions drv_c11 runs): closed_init; closed_step_partial - Inv (clauses a and c + allocation "
-               "discipline) is preserved by every valid op, proved for creation ops, append/insert/[]=/slice=/extend/+= (originals and TreeList "
-               "sources, both import strategies), + with a TreeList, read, new_tree, slicing, pop/del/remove, Tree copies, Tree.migrate/reconstruct "
-               "(both unify flags), matrix []=/new_sequence, DataSet.add/new_*/attach/detach; NOT for + with a plain list, TreeList copies, "
-               "TreeList/CharacterMatrix migrate/reconstruct, matrix copies, DataSet.unify_taxon_namespaces and DataSet.read (those are covered by the "
-               "correspondence and the oracle only); closed_reachable_partial / closed_from_init_partial (induction over histories); "
-               "removed_tree_consistent (clause c); clause b for single label resolutions: migrate_label_functional_partial, "
-               "migrate_unifies_equal_labels_partial, migrate_injective_on_labels_partial (not lifted to whole migrations with a memo).")
+EXPLANATION = ("Theorems (Props/C11.lean, about the definitions drv_c11 runs; stepG = step guarded by idsOk): closed_init; closed_step_partial / "
+               "closed_stepG_partial - Inv (clauses a and c + allocation discipline) is preserved by every valid op, proved for creation ops, "
+               "append/insert/[]=/slice=/extend/+= (originals and TreeList sources, both import strategies), + with a TreeList, read, new_tree, "
+               "slicing, pop/del/remove, Tree copies, Tree.migrate/reconstruct (both unify flags), matrix []=/new_sequence, "
+               "DataSet.add/new_*/attach/detach, TreeArray refusal; NOT for + with a plain list, TreeList copies, TreeList/CharacterMatrix "
+               "migrate/reconstruct, matrix copies, DataSet.unify_taxon_namespaces and DataSet.read (correspondence + oracle only); "
+               "closed_reachable_partial / closed_from_init_partial (induction over histories); stepG_refuses; removed_tree_consistent and "
+               "replaced_tree_consistent (clause c, tied to the position); clause b for whole label-unifying passes with a shared memo: "
+               "mapTaxa_unify_spec (nothing dropped, every item on the taxon label resolution answers, memo/store hypotheses re-established), "
+               "migrateTree_unify_spec, resolved_member_label, same_taxon_iff_equal_labels (same taxon <=> equal labels under the case rule, "
+               "also with duplicate labels in the namespace), mapTaxa_shape (any unify flag); the older single-resolution forms "
+               "migrate_*_partial. Not lifted: matrix passes (mapKeys refusal rule), the readers' last-match lookup, unify=False distinctness.")
 
 LABEL_POOL = ["A", "B", "C", "D", "a", "b", "E", "Ab", "AB", "c_1", "x y", "'q'", "E", "A"]
 
@@ -142,10 +147,21 @@ def nexus_of(taxlabels, matlabels, trees, seqs=None):
     return "\n".join(out) + "\n"
 
 
+class UnknownOp(Exception):
+    pass
+
+
 def err_name(e):
-    n = type(e).__name__
-    return {"TaxonNamespaceReconstructionError": "Conflict", "ValueError": "ValueError", "TypeError": "TypeError",
-            "KeyError": "KeyError", "IndexError": "IndexError"}.get(n, "Internal(%s)" % n)
+    """exception -> the small status enum (by isinstance, so that a subclass of a documented class stays in its class)"""
+    from dendropy.utility import error as dperr
+    if isinstance(e, dperr.TaxonNamespaceReconstructionError):
+        return "Conflict"
+    if isinstance(e, dperr.TaxonNamespaceIdentityError):
+        return "NamespaceIdentity"
+    for cls, name in ((IndexError, "IndexError"), (KeyError, "KeyError"), (TypeError, "TypeError"), (ValueError, "ValueError")):
+        if isinstance(e, cls):
+            return name
+    return "Internal(%s)" % type(e).__name__
 
 
 def apply_op(w, op):
@@ -281,8 +297,18 @@ def apply_op(w, op):
             w.reg_list(tl)
             for t in tl:
                 w.reg_tree(t)
+    elif k == "taadd":
+        ta = dp.TreeArray(taxon_namespace=w.nss[op[1]])
+        tree = w.trees[op[2]]
+        before = tree_taxa(tree)
+        try:
+            ta.add_tree(tree)
+        finally:
+            after = tree_taxa(tree)
+            if tree.taxon_namespace is not w.nss[op[1]] and (len(before) != len(after) or any(a is not b for a, b in zip(before, after))):
+                raise RuntimeError("TreeArray.add_tree refused a foreign tree but changed it")
     else:
-        raise ValueError("unknown op %r" % (op,))
+        raise UnknownOp("unknown op %r" % (op,))
     return "ok"
 
 
@@ -429,6 +455,8 @@ def enc_op(op):
         return [k, str(op[1]), str(op[2])]
     if k in ("mset", "mnew"):
         return [k, str(op[1]), str(op[2]), str(op[3])]
+    if k == "taadd":
+        return ["taadd", str(op[1]), str(op[2])]
     if k == "dsadd":
         return ["dsadd", str(op[1]), op[2], str(op[3])]
     if k in ("dsnewlist", "dsnewmat", "dsnewns", "dsdetach"):
@@ -731,17 +759,6 @@ class Watch(object):
                     out.append(("b", "equal labels %r and %r ended up on two taxa%s" % (
                         l1, l2, " (the target namespace holds duplicate labels)" if self.dup_before else "")))
                     break
-            if self.mode == "unify":
-                # a label-unifying pass resolves every item by label: it sits on the namespace's FIRST member with its label
-                # (new members are only ever appended when no member matched, so "first" is the same before and after)
-                for lab, new, old, ident in pairs:
-                    if new is None or ident:
-                        continue
-                    first = next((y for y in target._taxa if kf(y.label) == kf(lab)), None)
-                    if first is not None and new is not first:
-                        out.append(("b", "label-unifying pass left the item with label %r on a taxon that is not the namespace's first "
-                                         "member with that label (equal labels of this collection are spread over several taxa)" % lab))
-                        break
             if not self.dup_before and has_dup_keys(target):
                 out.append(("b", "a label was duplicated in the target namespace (it had no duplicate labels before)"))
         elif self.mode == "fresh":
@@ -766,10 +783,29 @@ class Watch(object):
 KNOWN_PRECONDITION = {"dsadd": "dataset-add-foreign-when-attached", "dsattach": "dataset-attach-over-foreign-components"}
 
 
-def classify(w, op, status, problems):
+SHARED_ID = "tree-held-by-another-list-rebound"
+
+
+def rebinds_shared_tree(w, op):
+    """append/insert/[]= of a tree object that is at this moment a member of ANOTHER tree list bound to a different namespace"""
+    k = op[0]
+    if k not in ("append", "insert", "setitem"):
+        return False
+    try:
+        tl = w.lists[op[1]]
+        t = w.trees[op[2] if k == "append" else op[3]]
+    except IndexError:
+        return False
+    return not tree_rebind_ok(w, t, tl.taxon_namespace, tl)
+
+
+def classify(w, op, status, problems, shared=False):
     """a tag singling out the input class of a failure (used by known_findings `match`)"""
     k = op[0]
     clauses = {c for c, _ in problems}
+    if shared and clauses == {"a-list"}:
+        # the documented in-place migration of an original that another collection still holds
+        return SHARED_ID
     if k == "dsadd" and op[2] in ("l", "m") and clauses == {"a-dataset"} and status == "ok":
         return "dataset-add-foreign-when-attached"
     if k == "dsattach" and clauses == {"a-dataset"} and status == "ok":
@@ -790,6 +826,7 @@ def run_history(ctx, dp, hist, pending, origin="random"):
     nontrivial = False
     for i, op in enumerate(hist):
         watch = Watch(w, op)
+        shared = rebinds_shared_tree(w, op)
         if watch.mode == "read" or (watch.mode is not None and watch.before):
             nontrivial = True
         status = run_op(w, op)
@@ -800,7 +837,7 @@ def run_history(ctx, dp, hist, pending, origin="random"):
             problems.append(("error", "operation %s raised %s" % (op[0], status)))
         states.append(canon(snapshot(w)))
         if problems:
-            cls = classify(w, op, status, problems)
+            cls = classify(w, op, status, problems, shared)
             replay = {"hist": hist[:i + 1], "failed_op": op[0], "class": cls, "status": status,
                       "clauses": sorted({c for c, _ in problems})}
             ctx.fail({"b": "label-map", "b-refused": "refused", "error": "error"}.get(problems[0][0], "closure"), "after step %d %r (%s): %s" % (i, op, status, "; ".join(m for _, m in problems[:4])), replay)
@@ -813,16 +850,16 @@ def run_history(ctx, dp, hist, pending, origin="random"):
     for s in statuses:
         if s != "ok":
             ctx.count("status:" + s)
-    pending.append((used, states, statuses))
+    pending.append((used, states, statuses, failed))
     return failed is None
 
 
 def flush(ctx, pending):
     if not pending:
         return
-    lines = [enc_history(h) for h, _, _ in pending]
+    lines = [enc_history(h) for h, _, _, _ in pending]
     outs = ctx.ask(lines)
-    for (hist, states, statuses), out in zip(pending, outs):
+    for (hist, states, statuses, failed), out in zip(pending, outs):
         if out is None:
             continue
         ctx.compared()
@@ -847,7 +884,7 @@ def flush(ctx, pending):
             if mst != ist or mstate != istate:
                 ctx.disagree("step %d %r" % (i, hist[i]), {"hist": hist[:i + 1]}, "%s %s" % (ist, istate), "%s %s" % (mst, mstate))
                 break
-            if mvalid == "invalid" and ist == "ok" and hist[i][0] not in KNOWN_PRECONDITION:
+            if mvalid == "invalid" and ist == "ok" and hist[i][0] not in KNOWN_PRECONDITION and i != failed:
                 # generators only produce ops inside the ownership precondition; the model's `Valid` must agree
                 ctx.disagree("valid %d %r" % (i, hist[i]), {"hist": hist[:i + 1]}, "generated as valid", "model says invalid")
                 break
@@ -951,7 +988,7 @@ def random_op(rng, w, allow_known=False):
     nN, nT, nL, nM, nD = len(w.nss), len(w.trees), len(w.lists), len(w.mats), len(w.dss)
     kinds = ["append", "append", "insert", "setitem", "setslice", "extend", "iadd", "add", "read", "newtree", "getslice", "pop",
              "remove", "lclone", "tclone", "mclone", "tmig", "trec", "lmig", "lrec", "mmig", "mrec", "mset", "mnew", "dsadd",
-             "dsnewlist", "dsnewmat", "dsnewns", "dsattach", "dsdetach", "dsunify", "dsread", "tree", "tlist", "ns", "mat"]
+             "dsnewlist", "dsnewmat", "dsnewns", "dsattach", "dsdetach", "dsunify", "dsread", "tree", "tlist", "ns", "mat", "taadd"]
     k = rng.choice(kinds)
     pool = LABEL_POOL
 
@@ -972,10 +1009,16 @@ def random_op(rng, w, allow_known=False):
     if k == "mat" and nN:
         n = rng.randrange(nN)
         return ["mat", n, [i for i in range(len(w.nss[n])) if rng.random() < 0.6]]
+    if k == "taadd" and nT and nN:
+        t = rng.randrange(nT)
+        # only foreign namespaces (the refusal): accepting a tree re-encodes it (unifurcations are suppressed), which is C06's matter
+        own = w.ns_id(w.trees[t].taxon_namespace)
+        cands = [n for n in range(nN) if n != own]
+        return ["taadd", rng.choice(cands), t] if cands else None
     if k in ("append", "insert", "setitem") and nL and nT:
         L = rng.randrange(nL)
         tl = w.lists[L]
-        cands = [i for i, t in enumerate(w.trees) if tree_rebind_ok(w, t, tl.taxon_namespace, tl)]
+        cands = [i for i, t in enumerate(w.trees) if allow_known == "shared" or tree_rebind_ok(w, t, tl.taxon_namespace, tl)]
         if not cands:
             return None
         t = rng.choice(cands)
@@ -984,6 +1027,8 @@ def random_op(rng, w, allow_known=False):
             return ["append", L, t, strat]
         if k == "insert":
             return ["insert", L, rng.randint(0, len(tl)), t, strat]
+        if rng.random() < 0.04:
+            return ["setitem", L, len(tl) + rng.randint(0, 2), t]
         if len(tl):
             return ["setitem", L, rng.randrange(len(tl)), t]
         return None
@@ -1013,11 +1058,15 @@ def random_op(rng, w, allow_known=False):
         return ["getslice", L, a, rng.randint(a, len(w.lists[L]))]
     if k == "pop" and nL:
         L = rng.randrange(nL)
+        if rng.random() < 0.04:
+            return [rng.choice(["pop", "del"]), L, len(w.lists[L]) + rng.randint(0, 2)]
         if len(w.lists[L]):
             return [rng.choice(["pop", "del"]), L, rng.randrange(len(w.lists[L]))]
         return None
     if k == "remove" and nL:
         L = rng.randrange(nL)
+        if rng.random() < 0.04 and nT:
+            return ["remove", L, rng.randrange(nT)]   # mostly a tree that is not in the list: ValueError, nothing changes
         if len(w.lists[L]):
             return ["remove", L, w._reg(w.trees, rng.choice(w.lists[L]._trees))]
         return None
@@ -1128,11 +1177,18 @@ def run(ctx):
     ctx.t0 = __import__("time").time()
     ctx.set_budget(38, 330)
     pending = []
+    import common
+    shared_registered = any(k.get("property") == ID and k.get("id") == SHARED_ID for k in common.load_known().get("known", []))
+    if not shared_registered:
+        ctx.note("known finding %s is not registered: histories re-binding a tree held by another list are not generated" % SHARED_ID)
     n = ctx.pick(3500, 60000)
     for i in range(n):
         if ctx.out_of_time():
             break
-        random_history(ctx, dp, rng, pending, rng.randint(1, 25), allow_known=(rng.random() < 0.05))
+        r = rng.random()
+        # histories leaving the ownership domain are explored once their finding is registered (they end at the first failure)
+        allow = True if r < 0.05 else ("shared" if r < 0.08 and shared_registered else False)
+        random_history(ctx, dp, rng, pending, rng.randint(1, 25), allow_known=allow)
         if len(pending) >= 300:
             flush(ctx, pending)
     flush(ctx, pending)
